@@ -3,7 +3,9 @@
 Case = the Lean `Attrs.C20.Case`: the classes of ONE hierarchy (a base class, subclasses that add validated fields
 or re-declare inherited ones, siblings, optionally a plain class in between), each described by its resolved field
 list (api, class-level and per-field on_setattr as lists of elementary hooks, per field the length of its validator
-chain, whether it has a converter and whether it has a default factory; per class its `__attrs_pre_init__` /
+chain, whether it has a converter, whether it is an `__init__` parameter (`init=False` fields with a default are
+still set and validated by the initializer) and its default (none / value / Factory / takes_self factory, also
+written as `@x.default`); per class its `__attrs_pre_init__` /
 `__attrs_post_init__` hooks and `kw_only`), the one callback that raises (`fault`), the switch position at the start and
 a history of operations {set_disabled(v), set_run_validators(v), get_disabled, get_run_validators, enter
 disabled(), exit, exit by exception, construct class k, assign field i of the instance of class k,
@@ -21,6 +23,13 @@ to the very object it currently holds (`c.x = c.x`), to an equal copy, or perfor
 (`c.x += [...]`); what the attribute holds at that moment was stored without any validation (instances are first
 built without the initializer), by an earlier assignment or by the last construction of that class -- any of them
 possibly while validators were disabled.  The model ignores the value (C20_assign_value_irrelevant).
+
+One callback of the hierarchy (`probe`: a validator, converter, factory, user hook, pre- or post-init hook) may
+carry a `body`: nested operations it performs every time it is called during an operation of the history --
+read the getters, construct / assign / validate other instances, open a `disabled()` block of its own and flip the
+switch inside it (as a whole a body gives the switch back as it found it).  What the nested operations observe
+is recorded per call (`nested`) and judged by the same step rules, starting from the switch position observed
+before the outer operation: no operation may move the switch on the way to, or around, its callbacks.
 
 Classes are created fresh for every case (nothing a reader may memoise on a class survives into another case, so
 replays are exact).  Every validator checks that it is called with the Attribute of the instance's own class and
@@ -47,7 +56,7 @@ import common
 ID = "C20"
 RULE = ("cases = class hierarchy (1-3 attrs classes: base, subclasses adding/re-declaring validated fields, siblings) x "
         "faulty validator x start position x operation history whose readers each name the class whose instance they "
-        "work on, every assignment says which object it binds (fresh / the stored one / equal copy / +=); sweeps: every reader over the classes of a hierarchy in every order, twice, enabled / after a "
+        "work on (fields incl. init=False ones with every kind of default), optionally one callback performing nested operations (reads, readers on other instances, own blocks with flips) whenever it is called; every assignment says which object it binds (fresh / the stored one / equal copy / +=); sweeps: every reader over the classes of a hierarchy in every order, twice, enabled / after a "
         "disabled pass; thorough: ALL histories of "
         "length <= 5 over {set_disabled(T/F), set_run_validators(T/F), enter, exit, exit-by-exception, construct, "
         "assign, validate} that never exit with nothing open (closed at the end), from both start positions, each on a "
@@ -60,6 +69,7 @@ ASSUMPTIONS = [
     "recording callbacks stand for arbitrary validators/converters/hooks: which ran, in which order, and which one raised is what is compared",
     "the inheritance relation between the classes of a case is harness-only: the model judges every reader by the resolved field list of the class named (C20_readers_memoryless); all classes of a hierarchy use the same front-end and class-level on_setattr; a plain class in between only for dict classes (K6 concerns slotted ones)",
     "single-threaded use (the switch is documented as not thread-safe)",
+    "callback bodies are neutral (setters only inside blocks the body itself closes), so the outer operation is unaffected by them: what happens to the rest of an operation when a callback leaves the switch flipped is not fixed by the property and not generated; nested readers' own callbacks have no bodies (depth 1)",
     "construction is modelled through the shared initializer model (Model/Init.lean), tied to the code by the C01/C02 correspondence as well",
 ]
 EXHAUSTIVE = {"quick": False, "thorough": True}
@@ -69,6 +79,9 @@ PARALLEL = True   # each case sets, scopes and restores the (per-process) switch
 
 LOG: list = []
 FAULT = [None]
+PROBE = [None]        # (kind, field, idx) of the callback whose body performs the nested operations
+RUN_BODY = [None]     # set by the observer: runs the nested operations once and files what they observed
+NESTING = [False]
 
 ARGS = {"T": True, "F": False, "int0": 0, "int1": 1, "float1": 1.0, "pyNone": None, "str": "x", "emptyStr": ""}
 NONBOOL = ["int0", "int1", "float1", "pyNone", "str", "emptyStr"]
@@ -86,6 +99,8 @@ def chain(l):
 # ------------------------------------------------------------------------------------------ callbacks
 def _hit(kind, field, idx):
     LOG.append({"kind": kind, "field": field, "idx": idx})
+    if PROBE[0] == (kind, field, idx) and not NESTING[0] and RUN_BODY[0] is not None:
+        RUN_BODY[0]()                 # the callback does its nested work, then returns or raises as usual
     if FAULT[0] == (kind, field, idx):
         raise common.UserError(f"{kind}.{field}.{idx}")
 
@@ -116,11 +131,29 @@ def mk_converter(name):
     return c
 
 
-def mk_factory(name):
-    def fac():
-        _hit("factory", name, 0)
-        return ["d." + name]
+def mk_factory(name, takes_self):
+    if takes_self:
+        def fac(self):
+            _hit("factory", name, 0)
+            return ["d." + name]
+    else:
+        def fac():
+            _hit("factory", name, 0)
+            return ["d." + name]
     return fac
+
+
+def _dflt_kind(f):
+    """none | value | factory | factorySelf"""
+    d = f.get("dflt", "none")
+    if isinstance(d, str):
+        return d
+    return "factorySelf" if d["factory"]["takesSelf"] else "factory"
+
+
+def _passed(f):
+    """a construction passes exactly the mandatory parameters"""
+    return f.get("init", True) and _dflt_kind(f) == "none"
 
 
 def _pre_noargs(self):
@@ -163,8 +196,19 @@ def _mk_field(f, is_define, bare):
     kw = dict(_on_setattr(f["onSet"], bare))
     if f["conv"]:
         kw["converter"] = mk_converter(f["name"])
-    if f.get("factory"):
-        kw["factory"] = mk_factory(f["name"])
+    dk = _dflt_kind(f)
+    ddeco = None
+    if dk == "value":
+        kw["default"] = ["dv." + f["name"]]
+    elif dk == "factory":
+        kw["factory"] = mk_factory(f["name"], False)
+    elif dk == "factorySelf":
+        if f.get("dstyle") == "decorator":
+            ddeco = mk_factory(f["name"], True)           # @x.default
+        else:
+            kw["default"] = attr.Factory(mk_factory(f["name"], True), takes_self=True)
+    if not f.get("init", True):
+        kw["init"] = False
     deco = None
     if n == 1:
         if style == "deco":
@@ -188,12 +232,15 @@ def _mk_field(f, is_define, bare):
     ca = (attrs.field if is_define else attr.ib)(**kw)
     if deco is not None:
         ca.validator(deco)
+    if ddeco is not None:
+        ca.default(ddeco)
     return ca
 
 
 def _strip(f):
-    g = {k: f[k] for k in ("name", "validators", "conv", "onSet", "style") if k in f}
-    g["factory"] = bool(f.get("factory", False))
+    g = {k: f[k] for k in ("name", "validators", "conv", "onSet", "style", "dstyle") if k in f}
+    g["init"] = bool(f.get("init", True))
+    g["dflt"] = f.get("dflt", "none")
     return g
 
 
@@ -216,8 +263,9 @@ def resolve(hier):
     return out
 
 
-def mk_case(hier, fault, start, ops, cfg):
-    return {"classes": resolve(hier), "hier": hier, "fault": fault, "start": start, "ops": ops, "cfg": cfg}
+def mk_case(hier, fault, start, ops, cfg, probe=None, body=()):
+    return {"classes": resolve(hier), "hier": hier, "fault": fault, "probe": probe, "body": list(body) if probe else [],
+            "start": start, "ops": ops, "cfg": cfg}
 
 
 _BUILDS = [0]
@@ -256,7 +304,7 @@ def build(case):
         if node.get("post"):
             ns["__attrs_post_init__"] = _post
         classes.append(deco(**kw)(type("K%d" % k, (base,), ns)))
-    return [(K, [f["name"] for f in c["fields"]], [f["name"] for f in c["fields"] if not f.get("factory")])
+    return [(K, [f["name"] for f in c["fields"]], [f["name"] for f in c["fields"] if _passed(f)])
             for K, c in zip(classes, case["classes"])]
 
 
@@ -306,6 +354,9 @@ def observe(case):
             pass
         attr._config._run_validators = True
         FAULT[0] = None
+        PROBE[0] = None
+        RUN_BODY[0] = None
+        NESTING[0] = False
         del LOG[:]
 
 
@@ -320,26 +371,34 @@ def _observe(case, open_cms):
     get_run, set_run = attr.get_run_validators, attr.set_run_validators
     validate = ns.validate
     # the instances that assign / validate work on, one per class: built without the initializer
-    insts = []
-    for K, names, _ in built:
-        inst = K.__new__(K)
-        for n in names:
-            object.__setattr__(inst, n, ["v." + n])      # stored without ever passing a validator
-        insts.append(inst)
+    # (a second set for the operations performed from inside callbacks)
+    def fresh_insts():
+        out = []
+        for K, names, _ in built:
+            inst = K.__new__(K)
+            for n in names:
+                object.__setattr__(inst, n, ["v." + n])      # stored without ever passing a validator
+            out.append(inst)
+        return out
+
+    insts, insts2 = fresh_insts(), fresh_insts()
     f = case.get("fault")
     FAULT[0] = (f["kind"], f["field"], f["idx"]) if f else None
     early = [V.disabled() for _ in case["ops"]] if cfg.get("earlyCm") else None
     exc_kinds = cfg.get("excKinds") or ["valueError"]
     n_exc = [0]
     ops = case["ops"]
-    set_run(bool(case["start"]))
-    steps = []
+    steps, nested, pending = [], [], []
     del LOG[:]
 
-    def record(ret=None, exc=None, swallowed=False):
-        steps.append({"disabled": _b3(V.get_disabled), "run": _b3(get_run), "ret": ret, "exc": exc,
-                      "swallowed": swallowed, "events": list(LOG)})
+    def record(ret=None, exc=None, swallowed=False, into=None):
+        (steps if into is None else into).append(
+            {"disabled": _b3(V.get_disabled), "run": _b3(get_run), "ret": ret, "exc": exc,
+             "swallowed": swallowed, "events": list(LOG)})
         del LOG[:]
+        if into is None:               # an operation of the history: file what its callbacks' bodies observed
+            nested.append(list(pending))
+            del pending[:]
 
     def next_exc():
         err = _mk_exc(exc_kinds[n_exc[0] % len(exc_kinds)])
@@ -349,8 +408,9 @@ def _observe(case, open_cms):
     def new_cm():
         return early.pop() if early else V.disabled()
 
-    def simple(k, a):
+    def simple(k, a, into=None, on=None):
         """an operation that is not a bracket"""
+        on = insts if on is None else on
         ret = exc = None
         try:
             if k == "setDisabled":
@@ -371,9 +431,9 @@ def _observe(case, open_cms):
                     new = K(**vals)
                 # later assignments / validate() work on the instance built last (possibly while disabled)
                 if cfg.get("adopt", True):
-                    insts[a["k"]] = new
+                    on[a["k"]] = new
             elif k == "assign":
-                inst, n = insts[a["k"]], built[a["k"]][1][a["i"]]
+                inst, n = on[a["k"]], built[a["k"]][1][a["i"]]
                 how = a.get("v", "fresh")
                 if how == "fresh":
                     setattr(inst, n, ["w." + n])
@@ -384,7 +444,7 @@ def _observe(case, open_cms):
                 else:                            # a real augmented assignment: in-place change, then re-binding
                     exec("inst.%s += ['+']" % n, {"inst": inst})
             elif k == "validate":
-                validate(insts[a["k"]])
+                validate(on[a["k"]])
             else:
                 raise AssertionError(k)
         except AssertionError:
@@ -393,25 +453,25 @@ def _observe(case, open_cms):
             exc = "other"
         except BaseException as e:  # noqa: BLE001
             exc = _exc(e)
-        record(ret, exc)
+        record(ret, exc, into=into)
 
-    def manual():
+    def manual(ops, cms, into=None, on=None, cm_factory=new_cm):
         """explicit __enter__/__exit__ calls on the manager objects"""
         for op in ops:
             k, a = _op(op)
             if k not in ("enter", "exit", "exitExc"):
-                simple(k, a)
+                simple(k, a, into, on)
                 continue
             exc, swallowed = None, False
             try:
                 if k == "enter":
-                    cm = new_cm()
+                    cm = cm_factory()
                     cm.__enter__()
-                    open_cms.append(cm)
+                    cms.append(cm)
                 elif k == "exit":
-                    swallowed = bool(open_cms.pop().__exit__(None, None, None))
+                    swallowed = bool(cms.pop().__exit__(None, None, None))
                 else:
-                    cm = open_cms.pop()
+                    cm = cms.pop()
                     try:
                         raise next_exc()
                     except BaseException as e2:  # noqa: BLE001
@@ -420,7 +480,33 @@ def _observe(case, open_cms):
                 exc = "other"
             except BaseException as e:  # noqa: BLE001
                 exc = _exc(e)
-            record(None, exc, swallowed)
+            record(None, exc, swallowed, into=into)
+
+    body = case.get("body") or []
+
+    def run_body():
+        """what the probing callback does when it is called: the nested operations, on instances of their own,
+        observed like a history of its own; the caller's event log is put back afterwards"""
+        NESTING[0] = True
+        saved = LOG[:]
+        del LOG[:]
+        inv, cms = [], []
+        try:
+            manual(body, cms, into=inv, on=insts2, cm_factory=V.disabled)
+        finally:
+            while cms:
+                try:
+                    cms.pop().__exit__(None, None, None)
+                except BaseException:  # noqa: BLE001
+                    pass
+            LOG[:] = saved
+            NESTING[0] = False
+        pending.append(inv)
+
+    pr = case.get("probe")
+    PROBE[0] = (pr["kind"], pr["field"], pr["idx"]) if pr else None
+    RUN_BODY[0] = run_body if pr else None
+    set_run(bool(case["start"]))
 
     def block(i):
         """real, dynamically nested `with` statements: runs ops[i:] at the current nesting level and returns
@@ -457,8 +543,8 @@ def _observe(case, open_cms):
     if cfg.get("realWith"):
         block(0)
     else:
-        manual()
-    return {"steps": steps}
+        manual(ops, open_cms)
+    return {"steps": steps, "nested": nested}
 
 
 # ------------------------------------------------------------------------------------------ generators
@@ -480,8 +566,19 @@ def _depths(ops):
     return out
 
 
-def _fld(name, validators=1, conv=False, on_set="unset", style="list", factory=False):
-    return {"name": name, "validators": validators, "conv": conv, "onSet": on_set, "style": style, "factory": factory}
+FACTORY = {"factory": {"takesSelf": False}}
+FACTORY_SELF = {"factory": {"takesSelf": True}}
+
+
+def _fld(name, validators=1, conv=False, on_set="unset", style="list", factory=False, init=True, dflt=None,
+         dstyle="factory"):
+    return {"name": name, "validators": validators, "conv": conv, "onSet": on_set, "style": style,
+            "init": init, "dflt": dflt if dflt is not None else (FACTORY if factory else "none"), "dstyle": dstyle}
+
+
+def _needs_kw(nodes):
+    """a defaulted parameter may precede mandatory ones only if everything is keyword-only"""
+    return any(f.get("init", True) and _dflt_kind(f) != "none" for nd in nodes for f in nd["own"])
 
 
 def _node(parent, *own, plain=False, pre="none", post=False):
@@ -489,8 +586,7 @@ def _node(parent, *own, plain=False, pre="none", post=False):
 
 
 def _hier(is_define, cls_on_set, *nodes):
-    # a factory field may precede mandatory ones only if everything is keyword-only
-    kw = any(f.get("factory") for nd in nodes for f in nd["own"])
+    kw = _needs_kw(nodes)
     return {"isDefine": is_define, "clsOnSet": cls_on_set, "kwOnly": kw, "nodes": list(nodes)}
 
 
@@ -516,6 +612,12 @@ POOL = [
     (_hier(True, "unset", _node(None, _fld("x", 0, True), post=True)), None),                      # no validator: no guard
     (_hier(True, "unset", _node(None, _fld("x", 0, True), pre="noArgs", post=True), _node(0, _fld("y", 1, factory=True))), None),
     (_hier(False, "unset", _node(None, _fld("x"), post=True), _node(0, _fld("y", 2), pre="withArgs"), _node(0, _fld("x", 0), post=True)), _v("y", 0)),
+    # validated fields that are not __init__ parameters, every kind of default
+    (_hier(True, "unset", _node(None, _fld("x"), _fld("d", 1, init=False, dflt="value"))), _v("d", 0)),
+    (_hier(False, "unset", _node(None, _fld("x", 0), _fld("d", 2, True, init=False, dflt=FACTORY), post=True)), None),
+    (_hier(True, V_CHAIN, _node(None, _fld("x"), _fld("d", 1, init=False, dflt=FACTORY_SELF)),
+           _node(0, _fld("e", 1, True, init=False, dflt=FACTORY_SELF, dstyle="decorator"))), _v("e", 0)),
+    (_hier(False, "unset", _node(None, _fld("d", 1, init=False, dflt="value"), _fld("x", 1, dflt="value"))), None),
     # base + subclass that adds a validated field
     (_hier(True, "unset", _node(None, _fld("x", 1, True)), _node(0, _fld("y", 1))), None),
     (_hier(False, "unset", _node(None, _fld("x")), _node(0, _fld("y", 2))), _v("y", 1)),
@@ -615,10 +717,19 @@ def _rand_hook(rng, p_unset):
     return chain(rng.choice(CHAINS))
 
 
+def _rand_default(rng):
+    r = rng.random()
+    if r < 0.62:
+        return {}
+    dflt = rng.choice(["value", FACTORY, FACTORY_SELF])
+    return {"init": rng.random() < 0.45, "dflt": dflt}      # init=False only together with a default
+
+
 def _rand_field(rng, name):
     n = rng.choice([0, 1, 1, 1, 2, 3])
     return {"name": name, "validators": n, "conv": rng.random() < 0.45, "onSet": _rand_hook(rng, 0.6),
-            "style": _style(n, rng), "factory": rng.random() < 0.2}
+            "style": _style(n, rng), "init": True, "dflt": "none", "dstyle": rng.choice(["factory", "decorator"]),
+            **_rand_default(rng)}
 
 
 def _rand_hier(rng):
@@ -646,7 +757,7 @@ def _rand_hier(rng):
         nodes.append({"parent": parent, "plain": parent is not None and rng.random() < 0.3,
                       "pre": rng.choice(["none", "none", "none", "noArgs", "withArgs"]) if k == 0 or rng.random() < 0.3 else "none",
                       "post": rng.random() < (0.5 if k == 0 else 0.2), "own": own})
-    any_factory = any(f["factory"] for nd in nodes for f in nd["own"])
+    any_factory = _needs_kw(nodes)
     hier = {"isDefine": rng.random() < 0.5, "clsOnSet": _rand_hook(rng, 0.45),
             "kwOnly": any_factory or rng.random() < 0.25, "nodes": nodes}
     cands = [_v(f["name"], i) for c in resolve(hier) for f in c["fields"] for i in range(f["validators"])]
@@ -684,6 +795,116 @@ def _rand_ops(rng, classes, max_len, max_depth):
         else:
             ops.append("validate")
     return _bind(_close(ops, rng), classes, rng)
+
+
+def _sim(run, ops):
+    """the reference switch: final position, or None if an exit has nothing open / a block stays open"""
+    stack = []
+    for op in ops:
+        k, a = _op(op)
+        if k == "setDisabled":
+            run = not bool(ARGS[a["a"]])
+        elif k == "setRun":
+            if isinstance(ARGS[a["a"]], bool):
+                run = ARGS[a["a"]]
+        elif k == "enter":
+            stack.append(run)
+            run = False
+        elif k in ("exit", "exitExc"):
+            if not stack:
+                return None
+            run = stack.pop()
+    return None if stack else run
+
+
+def _neutral(body):
+    return _sim(True, body) is True and _sim(False, body) is False
+
+
+def _callbacks(hier):
+    """identities of all callbacks that can run for the classes of the hierarchy"""
+    out = []
+    for c in resolve(hier):
+        if c["pre"] != "none":
+            out.append({"kind": "pre", "field": "", "idx": 0})
+        if c["post"]:
+            out.append({"kind": "post", "field": "", "idx": 0})
+        cls_chain = c["clsOnSet"]["chain"]["l"] if isinstance(c["clsOnSet"], dict) else []
+        for f in c["fields"]:
+            out += [{"kind": "validator", "field": f["name"], "idx": i} for i in range(f["validators"])]
+            if f["conv"]:
+                out.append({"kind": "conv", "field": f["name"], "idx": 0})
+            if _dflt_kind(f) in ("factory", "factorySelf"):
+                out.append({"kind": "factory", "field": f["name"], "idx": 0})
+            ch = f["onSet"]["chain"]["l"] if isinstance(f["onSet"], dict) else (cls_chain if f["onSet"] == "unset" else [])
+            out += [{"kind": "hook", "field": f["name"], "idx": p} for p, x in enumerate(ch) if x == "custom"]
+    uniq = []
+    for e in out:
+        if e not in uniq:
+            uniq.append(e)
+    return uniq
+
+
+def _rand_body(rng, classes, max_len=7):
+    """nested operations of a callback: reads, readers on the other instances, blocks of its own with flips
+    inside; as a whole it gives the switch back as it found it (setters only inside blocks)"""
+    body, depth = [], 0
+    n = rng.randint(1, max_len)
+    while len(body) + depth < n:
+        r = rng.random()
+        if r < 0.25:
+            body.append(rng.choice(["getRun", "getDisabled"]))
+        elif r < 0.65:
+            body.append(_target(classes, rng, rng.choice(READERS)) or "getRun")
+        elif r < 0.78:
+            if depth < 2:
+                body.append("enter")
+                depth += 1
+        elif r < 0.88:
+            if depth > 0:
+                body.append({rng.choice(["setDisabled", "setRun"]): {"a": _rand_arg(rng, 0.1)}})
+        elif depth > 0:
+            body.append(rng.choice(["exit", "exitExc"]))
+            depth -= 1
+    body = _close(body, rng)
+    assert _neutral(body), body
+    return body
+
+
+def _std_body(classes, rng):
+    ks = list(range(len(classes)))
+    k = rng.choice(ks)
+    kf = [q for q in ks if classes[q]["fields"]]
+    body = ["getRun", {"construct": {"k": k}}, {"validate": {"k": rng.choice(ks)}}]
+    if kf:
+        q = rng.choice(kf)
+        body.append({"assign": {"k": q, "i": rng.randrange(len(classes[q]["fields"])), "v": rng.choice(ASSIGN_VALS)}})
+    body += ["enter", {"setDisabled": {"a": "F"}}, {"validate": {"k": k}}, {"construct": {"k": rng.choice(ks)}},
+             rng.choice(["exit", "exitExc"]), "getDisabled"]
+    return body
+
+
+def _probe_sweeps(hier, fault, rng):
+    """every callback of the hierarchy in turn does nested work while every reader runs on every class, enabled,
+    inside a block, and after the block"""
+    classes = resolve(hier)
+    readers = []
+    for k, c in enumerate(classes):
+        readers.append({"construct": {"k": k}})
+        readers += [{"assign": {"k": k, "i": i, "v": rng.choice(ASSIGN_VALS)}} for i in range(len(c["fields"]))]
+        readers.append({"validate": {"k": k}})
+    for probe in _callbacks(hier):
+        for start in (True, False):
+            ops = readers + ["enter"] + readers + [rng.choice(["exit", "exitExc"]), {"setRun": {"a": "T"}}] + readers
+            yield mk_case(_restyle(hier, rng), fault, start, ops, _rand_cfg(rng), probe, _std_body(classes, rng))
+
+
+def _maybe_probe(hier, rng, p):
+    cbs = _callbacks(hier)
+    if not cbs or rng.random() >= p:
+        return None, []
+    classes = resolve(hier)
+    return rng.choice(cbs), (_std_body(classes, rng) if rng.random() < 0.3 else _rand_body(rng, classes))
 
 
 def _sweeps(hier, fault, rng):
@@ -732,6 +953,12 @@ def gen_cases(tier, rng):
         hier, fault = _rand_hier(rng)
         if len(hier["nodes"]) > 1:
             yield from _sweeps(hier, fault, rng)
+    # every callback doing nested work under every reader
+    for hier, fault in (POOL if tier == "thorough" else rng.sample(POOL, 10)):
+        yield from _probe_sweeps(hier, fault if rng.random() < 0.5 else None, rng)
+    for _ in range(6 if tier == "quick" else 80):
+        hier, fault = _rand_hier(rng)
+        yield from _probe_sweeps(hier, fault, rng)
     # exhaustive block
     k = 0
     for ops in _enumerate(max_len):
@@ -743,13 +970,15 @@ def gen_cases(tier, rng):
             k += 1
             for hier, fault in picks:
                 hier = _restyle(hier, rng)
-                yield mk_case(hier, fault, start, _bind(_close(ops, rng), resolve(hier), rng), _rand_cfg(rng))
+                probe, body = _maybe_probe(hier, rng, 0.35)
+                yield mk_case(hier, fault, start, _bind(_close(ops, rng), resolve(hier), rng), _rand_cfg(rng), probe, body)
     # random block: longer histories, random hierarchies, non-bool arguments, get operations
     n = 1_000_000 if tier == "quick" else 90_000
     for _ in range(n):
         hier, fault = _rand_hier(rng) if rng.random() < 0.8 else rng.choice(POOL)
         hier = _restyle(hier, rng)
-        yield mk_case(hier, fault, rng.random() < 0.6, _rand_ops(rng, resolve(hier), 12, 4), _rand_cfg(rng))
+        probe, body = _maybe_probe(hier, rng, 0.5)
+        yield mk_case(hier, fault, rng.random() < 0.6, _rand_ops(rng, resolve(hier), 12, 4), _rand_cfg(rng), probe, body)
 
 
 def nontrivial(case, model):
@@ -809,7 +1038,13 @@ def dist(case, obs):
         "slots": cfg.get("slots"),
         "post_init": sum(1 for c in case["classes"] if c["post"]),
         "pre_init": ",".join(sorted({c["pre"] for c in case["classes"]})),
-        "factories": min(3, sum(1 for c in case["classes"] for f in c["fields"] if f["factory"])),
+        "defaults": ",".join(sorted({_dflt_kind(f) for c in case["classes"] for f in c["fields"]})),
+        "init_false_validated_fields": min(3, sum(1 for c in case["classes"] for f in c["fields"]
+                                                  if not f["init"] and f["validators"])),
+        "probe": (case.get("probe") or {}).get("kind"),
+        "body_len": min(len(case.get("body") or []), 9),
+        "body_flips": sum(1 for o in case.get("body") or [] if _op(o)[0] in ("setDisabled", "setRun", "enter")),
+        "body_runs": min(6, sum(len(n) for n in obs.get("nested", []))) if isinstance(obs, dict) else 0,
         "constructs_disabled_with_post_and_validators": min(3, sum(
             1 for o, s in zip(case["ops"], steps) if _op(o)[0] == "construct" and s["run"] == "f"
             and case["classes"][_op(o)[1]["k"]]["post"]
@@ -827,7 +1062,10 @@ def _valid(case):
     if _depths(case["ops"]) is None:
         return False
     cl = case["classes"]
-    for o in case["ops"]:
+    body = case.get("body") or []
+    if body and not _neutral(body):
+        return False
+    for o in list(case["ops"]) + list(body):
         k, a = _op(o)
         if k in READERS and not (0 <= a["k"] < len(cl)):
             return False
@@ -854,6 +1092,20 @@ def shrink(case):
                     cand = dict(case, ops=ops[:i] + ops[i + 1:j] + ops[j + 1:])
                     if _valid(cand):
                         yield cand
+    if case.get("probe") is not None:
+        yield dict(case, probe=None, body=[])
+        body = case["body"]
+        for i in range(len(body)):
+            cand = dict(case, body=body[:i] + body[i + 1:])
+            if _valid(cand):
+                yield cand
+        for i in range(len(body)):
+            if _op(body[i])[0] == "enter":
+                for j in range(i + 1, len(body)):
+                    if _op(body[j])[0] in ("exit", "exitExc"):
+                        cand = dict(case, body=body[:i] + body[i + 1:j] + body[j + 1:])
+                        if _valid(cand):
+                            yield cand
     if case.get("fault") is not None:
         yield dict(case, fault=None)
     if not case["start"]:
@@ -871,7 +1123,7 @@ def shrink(case):
         yield _rehier(case, dict(hier, nodes=nodes[:-1]))
     if hier["clsOnSet"] != "unset":
         yield _rehier(case, dict(hier, clsOnSet="unset"))
-    if hier.get("kwOnly") and not any(f.get("factory") for nd in nodes for f in nd["own"]):
+    if hier.get("kwOnly") and not _needs_kw(nodes):
         yield _rehier(case, dict(hier, kwOnly=False))
     for k, nd in enumerate(nodes):
         def with_own(own):
@@ -883,7 +1135,13 @@ def shrink(case):
             cand = with_own(nd["own"][:j] + nd["own"][j + 1:])
             if _valid(cand):
                 yield cand
-            for key, v in (("conv", False), ("onSet", "unset"), ("style", "list"), ("factory", False)):
+            if f.get("init", True) and _dflt_kind(f) != "none":
+                yield with_own(nd["own"][:j] + [dict(f, dflt="none")] + nd["own"][j + 1:])
+            if not f.get("init", True) and hier.get("kwOnly"):
+                yield with_own(nd["own"][:j] + [dict(f, init=True)] + nd["own"][j + 1:])
+            if _dflt_kind(f) in ("factory", "factorySelf"):
+                yield with_own(nd["own"][:j] + [dict(f, dflt="value")] + nd["own"][j + 1:])
+            for key, v in (("conv", False), ("onSet", "unset"), ("style", "list")):
                 if f.get(key) != v:
                     yield with_own(nd["own"][:j] + [dict(f, **{key: v})] + nd["own"][j + 1:])
             if f["validators"] > 1:
@@ -919,6 +1177,9 @@ LEVEL_TEXT = (
     "C20_disabled_inside, C20_block_silences_validators, C20_nonbool_rejected_state_unchanged, "
     "C20_assign_value_irrelevant (no short cut for re-binding the object already stored), C20_readers_memoryless (what a reader runs depends only on the class of the instance and the switch, not on which "
     "instances of which classes of the hierarchy were read before), "
+    "C20_callbacks_see_callers_switch / C20_getter_inside_callback / C20_switch_moves_only_by_switch_ops (nested operations "
+    "performed from inside any callback observe exactly what they would as a history started from the switch position the "
+    "outer operation found; only the setters, enter and the exits move the switch; a well-formed body is neutral), "
     "C20_hooks_unaffected / C20_construct_callbacks (a construction calls pre-init, per field factory and converter, "
     "validators iff enabled, post-init; only the validators depend on the switch), "
     "C20_honoured_construct (via C02_fault_prefix of the initializer model)/_assign/_validate (callbacks run = declarative "
